@@ -387,7 +387,7 @@ def pippenger(ctx):
                 pos_ = sorted(set(pos_) | set(range(0, len(sched), 8 if w <= 2 else 4)))
             for pi in pos_:
                 nxt = sched[pi + 1] if pi + 1 < len(sched) else None
-                step(ex, f, head, proj, aff, w, n, sched[pi], nxt, chk, gname)
+                step(ex, f, head, proj, aff, w, n, sched[pi], nxt, chk, gname, optional=(w >= 7))       # windows 7, 8: ladder rungs (memory / time permitting)
         # mismatched list lengths inside the bucket method (every digit-extraction branch): only the first min entries count, no panic
         if gname == 'G1':
             wm = 3
